@@ -367,6 +367,57 @@ def m8(rep):
     rep.floor("uses of the collected declaration text", n, 4)
 
 
+def m9(rep):
+    """A preprocessor directive is only a directive at the start of a line.  Every place of the C printer that writes `#line`
+    must start a new line first: the `#` is the first character after a newline written by the same call, or a newline is
+    written on every path immediately before (the column estimate ccoFileChar cannot be trusted for this: a label is printed
+    out-dented).  A `#line` that can follow `L1000:<tab>` on the same line is rejected by the C compiler (stray '#')."""
+    f = common.extract("ccode.c", all_trees=True, all_cfg=True)
+    n = 0
+    for name, fn in sorted(f.funcs.items()):
+        if "body" not in fn or not fn.get("file", "").endswith("ccode.c"):
+            continue
+        sites = []
+        for c in calls(fn["body"]):
+            for a in c["c"][1:]:
+                sv = common.string_value(a)
+                if sv is not None and "#line" in sv:
+                    sites.append((c, sv))
+        if not sites:
+            continue
+        cfg = common.CFG(fn)
+        for c, sv in sites:
+            n += 1
+            key = "line-directive-starts-a-line:%s" % name
+            where = "ccode.c:%d (%s)" % (c["l"], name)
+            if sv.index("#line") >= 1 and sv[sv.index("#line") - 1] == "\n":
+                rep.ok("M9", key + "@%d" % c["l"])
+                continue
+            # otherwise a newline must have been written on every path, as the last output before this call
+            def writes_newline(e):
+                if e["k"] != "CallExpr":
+                    return False
+                for a in e["c"][1:]:
+                    t = common.string_value(a)
+                    if t is not None and t.endswith("\n"):
+                        return True
+                return False
+
+            # every path from the function's entry to the call passes a write that ends in a newline
+            ev = cfg.events(lambda e, c=c: e.get("id") == c["id"])
+            b0, i0, _ = ev[0]
+            unconditional = cfg.path_avoiding(cfg.entry, lambda e, c=c: e.get("id") == c["id"], writes_newline, src_idx=-1) is None
+            if unconditional:
+                rep.ok("M9", key + "@%d" % c["l"])
+            else:
+                rep.violation("M9", key, where,
+                              "`%s` is written without a newline first on some path (the text does not begin with one and no "
+                              "newline write dominates the call): when the estimated column says 'at the margin' while the output is "
+                              "in fact after an out-dented label, the file contains `L1000:\t#line 509`, which is not a directive "
+                              "and does not compile" % sv.replace("\n", "\\n")[:30])
+    rep.floor("places that write #line in the C printer", n, 1)
+
+
 def run(tier, only=None):
     rep = common.Report("C16", tier, EXPLANATION)
     f = common.extract("genc.c", all_cfg=True)
@@ -419,6 +470,7 @@ def run(tier, only=None):
     m6(rep)
     m7(rep)
     m8(rep)
+    m9(rep)
     mx = max(ch for ch, _, _ in rows if ch is not None)
     if mx >= bound:
         rep.violation("M3", "table-chars", "genc.c (ccSpecCharIdTable)", "character %d indexes tables of %d elements" % (mx, bound))
